@@ -123,6 +123,7 @@ CLAIMS["C14"] = {
 
 NOT_APPLICABLE = {
     "C08": "GHT nodes own std HashMap / hashbrown HashTable at every level; variadic type recursion is outside Verus' subset and CBMC does not get through hashbrown probing (spiked): no contract on these functions can be discharged here.",
+    "C16": "Tool limit, measured: the channel (Rc<RefCell<Shared>>, Weak, VecDeque, SmallVec<[Waker;1]>, tokio error types) extracted verbatim into a Kani harness crate (contracts/kani/vk_mpsc, kept unregistered) drives CBMC to 65 GB RSS in propositional reduction for a single try_send call with static-vtable wakers and forgotten endpoints; Rc/RefCell/Waker code is outside Verus' subset; the no-stranded-sender part is a liveness property needing whole-history ghost state. The stale-duplicate-waker stranding trace found while reading is documented in DESIGN.md §6.2 with its native reproduction; no registered check reports it.",
     "C18": "Quantifies over programs the compiler accepts; partition_graph works on DfirGraph (slotmaps of syn AST nodes): no contract over that state is within Verus' subset and Kani cannot build a symbolic DfirGraph.",
     "C19": "Same as C18; the only function-level dependency (topo_sort cycle detection) owns a std HashMap internally and is out of reach (spiked).",
     "C20": "Whole-graph rewrite + serde round trip of DfirGraph; no per-function contract expresses 'preserves the dataflow'.",
